@@ -577,7 +577,9 @@ let comp (rest : string) : string =
   match form with
   | "canon" ->
       (match Composite.enc_composite Enc.Plain s vs with
-       | Some b -> "enc=" ^ hexs b ^ " dec=" ^ dec b ^ " enum=" ^ via b
+       | Some b ->
+           let sz = match Composite.size_composite Enc.Plain s vs with Some n -> str_n n | None -> "ERR" in
+           "enc=" ^ hexs b ^ " size=" ^ sz ^ " dec=" ^ dec b ^ " enum=" ^ via b
        | None -> "enc=ERR")
   | "var" -> let bs = bytes_of_hex hx in "dec=" ^ dec bs ^ " enum=" ^ via bs
   | _ -> failwith "comp: unknown form"
